@@ -44,6 +44,11 @@ def handle (args : List String) : Option Proto.Out :=
     let isPre := (m.length ≤ full.length) && (full.take m.length == m)
     pure { model := showRecs m, spec := if isPre then showRecs m else "prefix-of:" ++ showRecs full,
            sig := if isPre then "-" else "wal-bitflip-applied" }
+  | "synced" :: _mode :: ps => do
+    -- a crash image taken after a successful `sync()`: every record logged before it is on disk
+    let ps ← parsePayloads ps
+    let m := recoverBytes (encodeAll crc32 ps)
+    pure (mk (showRecs m) (showRecs (replay kindOf ps)) "wal-sync-lost-records")
   | "cont" :: k :: rest => do
     let k ← k.toNat?
     let (a, b) := splitAt "|" rest
